@@ -701,6 +701,21 @@ def run_valid(ctx, u):
                                 ctx.check(rj, "valid.rotate_rejects_invalid", region=t, corner=c, outcome=repr(wh))
                     why = "valid" if valid else ("negative" if min(t) < 0 else ("empty_rows" if y0 >= y1 else "empty_cols"))
                     ctx.case("valid2d", t, cls=["tuple_" + why], sample=lambda: {"kind": "validity", "region": list(t), "valid": valid})
+    # coordinates between -1 and 0 (a half-pixel offset such as -0.5, -0.25) are negative coordinates too
+    if ctx.begin("valid:fractional_negative"):
+        for frac in (-0.5, -0.25, -0.999, -1e-9):
+            for pos in range(4):
+                t = [0.0, float(B), 0.0, float(B)]
+                t[pos] = frac
+                if pos in (1, 3):
+                    t[pos - 1] = frac - 0.0     # keep the extent non-empty: lower bound equal, upper bound positive
+                    t[pos] = float(B)
+                    t[pos - 1] = frac
+                rej, what = rejected(lambda: aa.Region2D(region=tuple(t)))
+                ctx.check(rej, "valid.region2d.reject", region=tuple(t), outcome=repr(what), why="a coordinate in (-1, 0) is negative")
+            rej, what = rejected(lambda: aa.Region1D(region=(frac, float(B))))
+            ctx.check(rej, "valid.region1d.reject", region=(frac, float(B)), outcome=repr(what), why="a coordinate in (-1, 0) is negative")
+        ctx.case("valid", "fractional_negative", cls=["tuple_fractional_negative"], sample=None)
     for x0 in vals:
         for x1 in vals:
             t = (x0, x1)
